@@ -11,34 +11,57 @@ import (
 )
 
 type BasicPrivateIssuer struct {
-	tokenKey *oprf.PrivateKey
+	tokenKey     *oprf.PrivateKey
+	tokenKeyEnc  []byte
+	publicKeyEnc []byte
 }
 
 func NewBasicPrivateIssuer(key *oprf.PrivateKey) *BasicPrivateIssuer {
 	// oprf.PrivateKey computes and caches its public key on first use, without
-	// synchronisation. Do that here, before the issuer can be shared between goroutines.
-	key.Public()
-
-	return &BasicPrivateIssuer{
-		tokenKey: key,
-	}
-}
-
-func (i *BasicPrivateIssuer) TokenKey() *oprf.PublicKey {
-	return i.tokenKey.Public()
-}
-
-func (i *BasicPrivateIssuer) TokenKeyID() []byte {
-	pkIEnc, err := i.tokenKey.Public().MarshalBinary()
+	// synchronisation, and circl's P-384 element encoding reduces the
+	// coordinates in place, so that even serializing a shared public key is a
+	// write. Serialize both keys once, here, before the issuer can be shared
+	// between goroutines; every later call works on its own copy.
+	publicKeyEnc, err := key.Public().MarshalBinary()
 	if err != nil {
 		panic(err)
 	}
-	keyID := sha256.Sum256(pkIEnc)
+	tokenKeyEnc, err := key.MarshalBinary()
+	if err != nil {
+		panic(err)
+	}
+
+	return &BasicPrivateIssuer{
+		tokenKey:     key,
+		tokenKeyEnc:  tokenKeyEnc,
+		publicKeyEnc: publicKeyEnc,
+	}
+}
+
+// privateKey returns a copy of the token key that no other call shares.
+func (i *BasicPrivateIssuer) privateKey() *oprf.PrivateKey {
+	key := new(oprf.PrivateKey)
+	if err := key.UnmarshalBinary(oprf.SuiteP384, i.tokenKeyEnc); err != nil {
+		panic(err)
+	}
+	return key
+}
+
+func (i *BasicPrivateIssuer) TokenKey() *oprf.PublicKey {
+	key := new(oprf.PublicKey)
+	if err := key.UnmarshalBinary(oprf.SuiteP384, i.publicKeyEnc); err != nil {
+		panic(err)
+	}
+	return key
+}
+
+func (i *BasicPrivateIssuer) TokenKeyID() []byte {
+	keyID := sha256.Sum256(i.publicKeyEnc)
 	return keyID[:]
 }
 
 func (i BasicPrivateIssuer) Evaluate(req *BasicPrivateTokenRequest) ([]byte, error) {
-	server := oprf.NewVerifiableServer(oprf.SuiteP384, i.tokenKey)
+	server := oprf.NewVerifiableServer(oprf.SuiteP384, i.privateKey())
 
 	e := group.P384.NewElement()
 	err := e.UnmarshalBinary(req.BlindedReq)
@@ -75,7 +98,7 @@ func (i BasicPrivateIssuer) Type() uint16 {
 }
 
 func (i BasicPrivateIssuer) Verify(token tokens.Token) error {
-	server := oprf.NewVerifiableServer(oprf.SuiteP384, i.tokenKey)
+	server := oprf.NewVerifiableServer(oprf.SuiteP384, i.privateKey())
 
 	tokenInput := token.AuthenticatorInput()
 	output, err := server.FullEvaluate(tokenInput)
